@@ -27,7 +27,9 @@ CLAIMED = {
              "runs of seeded random programs are validated against TraceDEVS.tla with all invariants evaluated at every step. "
              "ClockListeners.tla specifies the clock discipline when TIME_CHANGED listeners (not only handlers) schedule events: TLC checks "
              "clock / TIME_CHANGED monotonicity and nothing-in-the-past, refutes the pinned tree's deviation (constant OldClockDuringTC), and "
-             "recorded runs of such models are validated by TraceClockListeners.tla.",
+             "recorded runs of such models are validated by TraceClockListeners.tla. RunListeners.tla extends this to bounded segments and "
+             "step() with listeners of START / TIME_CHANGED / WARMUP / STOP that schedule and cancel (stamp = simulator time, exactly once, "
+             "in order, segment completeness; self-test constant StampLag refuted); segmented real runs are validated by TraceRunListeners.tla.",
         design_ref="DESIGN.md §5 C02, §9.3",
         note="Trusted: projection (event identity = creation rank, times on the k/4 grid), quiescence wait on the run thread, TLC.",
     ),
@@ -37,8 +39,10 @@ CLAIMED = {
         text="All sequences of start / run_up_to / run_up_to_including / step / pause commands up to the bound over all small programs: "
              "bounded-run semantics, never beyond the end, resumability, and AgreesWithReference (segmented run = uninterrupted run); the "
              "segmentations are replayed on the real simulators (stop() forced while the k-th handler runs) and random programs x random "
-             "segmentations are validated by TraceDEVS.tla.",
-        design_ref="DESIGN.md §5 C03",
+             "segmentations are validated by TraceDEVS.tla. ClockListeners.tla (step mode) and RunListeners.tla (bounded and step segments "
+             "with scheduling / cancelling listeners of every run-thread notification) are model-checked and bound to segmented real runs by "
+             "TraceClockListeners.tla / TraceRunListeners.tla.",
+        design_ref="DESIGN.md §5 C03, C02 (growth: RunListeners)",
         note="Trusted: as C02; a pause is a stop() issued during a handler (no wall-clock sleeps).",
     ),
     "C05": dict(
